@@ -33,6 +33,7 @@ pub fn ty_text(t: &Ty, u: &Universe) -> String {
         Ty::OptAlias => "crate::rt::OptU8".into(),
         Ty::BoxOpt(x) => format!("Box<Option<{}>>", ty_text(x, u)),
         Ty::ParenOptBytes => "(Option<Vec<u8>>)".into(),
+        Ty::WideNil => "crate::rt::WideNil".into(),
     }
 }
 
@@ -201,12 +202,13 @@ fn model_expr(t: &Ty, x: &str, u: &Universe) -> String {
         Ty::Param => format!("crate::rt::ParamModel::pmodel({}, fr)", x),
         Ty::BoxOpt(e) => format!("(match &**{} {{ None => vcore::Item::Null, Some(inner) => {} }})", x, model_expr(e, "inner", u)),
         Ty::ParenOptBytes => format!("(match {} {{ None => vcore::Item::Null, Some(inner) => fr.bytes(&inner[..]) }})", x),
+        Ty::WideNil => format!("fr.uint({}.0 as u64)", x),
     }
 }
 
 fn is_nil_expr(f: &Field, x: &str) -> String {
     if f.optional { format!("{}.is_none()", x) }
-    else { match f.ty { Ty::NilWith | Ty::NilOwn => format!("{}.0.is_none()", x), Ty::NilFns => format!("{}.0.is_empty()", x), Ty::OptAlias => format!("{}.is_none()", x),
+    else { match f.ty { Ty::WideNil => format!("{}.0 == 0", x), Ty::NilWith | Ty::NilOwn => format!("{}.0.is_none()", x), Ty::NilFns => format!("{}.0.is_empty()", x), Ty::OptAlias => format!("{}.is_none()", x),
                         Ty::Param => format!("crate::rt::ParamModel::pnil(&{})", x), _ => "false".into() } }
 }
 
@@ -234,6 +236,7 @@ fn mval_expr(t: &Ty, x: &str, u: &Universe) -> String {
         Ty::MapU8(e) => format!("crate::rt::MVal::Seq({}.iter().map(|(k, e)| crate::rt::MVal::Seq(vec![crate::rt::MVal::Leaf(vec![*k]), {}])).collect())", x, mval_expr(e, "e", u)),
         Ty::Struct(_) | Ty::Enum(_) | Ty::GenericInst(_) | Ty::GenericInstOpt(_) => format!("{}.to_mval()", x),
         Ty::NilWith | Ty::NilOwn => format!("(match {}.0 {{ None => crate::rt::MVal::None, Some(_) => crate::rt::MVal::Leaf({{ let fr = &mut crate::rt::Fr::preferred(); {}.encode() }}) }})", x, model_expr(t, x, u)),
+        Ty::WideNil => format!("(if {}.0 == 0 {{ crate::rt::MVal::None }} else {{ crate::rt::MVal::Leaf({{ let fr = &mut crate::rt::Fr::preferred(); {}.encode() }}) }})", x, model_expr(t, x, u)),
         Ty::OptAlias => format!("(match *{} {{ None => crate::rt::MVal::None, Some(_) => crate::rt::MVal::Leaf({{ let fr = &mut crate::rt::Fr::preferred(); {}.encode() }}) }})", x, model_expr(t, x, u)),
         Ty::Param => format!("crate::rt::ParamModel::pmval({})", x),
         Ty::NilFns => format!("(if {}.0.is_empty() {{ crate::rt::MVal::None }} else {{ crate::rt::MVal::Leaf({{ let fr = &mut crate::rt::Fr::preferred(); {}.encode() }}) }})", x, model_expr(t, x, u)),
